@@ -19,7 +19,8 @@ func parseArraiStringFragment(s string, validEscapes string, indent string) stri
 			panic(err)
 		}
 		sb.WriteRune(rune(n))
-		return i + size
+		// The caller's loop increments i again, so point at the last digit.
+		return i + size - 1
 	}
 
 	for i := 0; i < len(s); i++ {
